@@ -93,9 +93,10 @@ func kindSetString(s uint64) string {
 }
 
 type ledger struct {
-	w    *World
-	fn   *ssa.Function
-	keys map[ssa.Value]string
+	extra []edgeFact // facts assumed while one incoming edge of a join is examined
+	w     *World
+	fn    *ssa.Function
+	keys  map[ssa.Value]string
 	// statistics
 	depth int
 }
@@ -351,6 +352,11 @@ func (lg *ledger) key(v ssa.Value) string {
 					k = lg.key(sv) // the variable is written once, before this load: it IS that value
 				}
 			}
+			if _, ok := x.X.(*ssa.FreeVar); ok {
+				if sv := cellValue(x); sv != nil {
+					k = lg.key(sv) // a write-once variable of the enclosing function
+				}
+			}
 			// loads of a field of the receiver/parameter: stable if never stored in this function
 			if fa, ok := x.X.(*ssa.FieldAddr); ok {
 				// equal to every other load of the same field that no store can precede
@@ -547,6 +553,7 @@ func (lg *ledger) proveEdge(p pred, from, to *ssa.BasicBlock, ctx *proofCtx) (bo
 
 // reflectMethod: c is a call of reflect.Value.<name>; returns the receiver.
 func reflectValueCall(v ssa.Value, name string) (recv ssa.Value, args []ssa.Value, ok bool) {
+	v = throughCell(v)
 	c, isCall := v.(*ssa.Call)
 	if !isCall || c.Call.IsInvoke() {
 		return nil, nil, false
@@ -559,6 +566,7 @@ func reflectValueCall(v ssa.Value, name string) (recv ssa.Value, args []ssa.Valu
 }
 
 func reflectTypeInvoke(v ssa.Value, name string) (recv ssa.Value, args []ssa.Value, ok bool) {
+	v = throughCell(v)
 	c, isCall := v.(*ssa.Call)
 	if !isCall || !c.Call.IsInvoke() || c.Call.Method.Name() != name {
 		return nil, nil, false
@@ -570,6 +578,7 @@ func reflectTypeInvoke(v ssa.Value, name string) (recv ssa.Value, args []ssa.Val
 }
 
 func reflectFunc(v ssa.Value, name string) (args []ssa.Value, ok bool) {
+	v = throughCell(v)
 	c, isCall := v.(*ssa.Call)
 	if !isCall || c.Call.IsInvoke() {
 		return nil, false
@@ -579,6 +588,22 @@ func reflectFunc(v ssa.Value, name string) (args []ssa.Value, ok bool) {
 		return c.Call.Args, true
 	}
 	return nil, false
+}
+
+// throughCell: a write-once variable that lives in a cell (a closure captures it) is the value written to it.
+func throughCell(v ssa.Value) ssa.Value {
+	for i := 0; i < 3; i++ {
+		ld, ok := v.(*ssa.UnOp)
+		if !ok {
+			break
+		}
+		sv := cellValue(ld)
+		if sv == nil {
+			break
+		}
+		v = sv
+	}
+	return v
 }
 
 func constKind(v ssa.Value) (int, bool) {
@@ -879,6 +904,9 @@ func (lg *ledger) proveStep(p pred, at *ssa.BasicBlock, ctx *proofCtx) (bool, st
 	if why := lg.byGlobalInit(p, ctx); why != "" {
 		return true, why
 	}
+	if why := lg.byEnclosing(p, ctx); why != "" {
+		return true, why
+	}
 	switch len(at.Preds) {
 	case 0:
 		return false, ""
@@ -916,28 +944,43 @@ func (lg *ledger) byCalleeReturns(p pred, at *ssa.BasicBlock, ctx *proofCtx) str
 	}
 	// the single result of a module function: the predicate holds for what every return yields
 	if call, isCall := p.v.(*ssa.Call); isCall {
-		g := call.Call.StaticCallee()
-		if g == nil || len(g.Blocks) == 0 || !inModule(g) || g == lg.fn || g.Signature.Results().Len() != 1 {
+		var gs []*ssa.Function
+		if g := call.Call.StaticCallee(); g != nil {
+			gs = []*ssa.Function{g}
+		} else if !call.Call.IsInvoke() {
+			gs = possibleCallees(call.Call.Value, 0) // a function value that is one of a few known closures
+		}
+		if len(gs) == 0 {
 			return ""
 		}
-		lgG := newLedger(lg.w, g)
-		n := 0
-		for _, b := range g.Blocks {
-			r, isRet := b.Instrs[len(b.Instrs)-1].(*ssa.Return)
-			if !isRet || len(r.Results) != 1 {
-				continue
-			}
-			n++
-			q := p
-			q.v = r.Results[0]
-			if okq, _ := lgG.prove(q, b); !okq {
+		var names []string
+		for _, g := range gs {
+			if len(g.Blocks) == 0 || g == lg.fn || g.Signature.Results().Len() != 1 {
 				return ""
 			}
+			if !inModule(g) && !strings.HasPrefix(g.Synthetic, "bound method wrapper") {
+				return ""
+			}
+			lgG := newLedger(lg.w, g)
+			n := 0
+			for _, b := range g.Blocks {
+				r, isRet := b.Instrs[len(b.Instrs)-1].(*ssa.Return)
+				if !isRet || len(r.Results) != 1 {
+					continue
+				}
+				n++
+				q := p
+				q.v = r.Results[0]
+				if okq, _ := lgG.prove(q, b); !okq {
+					return ""
+				}
+			}
+			if n == 0 {
+				return ""
+			}
+			names = append(names, g.Name())
 		}
-		if n == 0 {
-			return ""
-		}
-		return "holds for the result at every return of " + g.Name()
+		return "holds for the result at every return of " + strings.Join(names, ", ")
 	}
 	ex, ok := p.v.(*ssa.Extract)
 	if !ok {
@@ -1009,6 +1052,40 @@ func (lg *ledger) byCalleeReturns(p pred, at *ssa.BasicBlock, ctx *proofCtx) str
 		return ""
 	}
 	return "holds for this result at every return of " + g.Name() + " that the tested flag allows"
+}
+
+// byEnclosing: inside a function literal, the subject is a value of the enclosing function (a
+// write-once captured variable): the predicate holds if the enclosing function establishes it where
+// the literal is turned into a value.
+func (lg *ledger) byEnclosing(p pred, ctx *proofCtx) string {
+	if p.b != nil || ctx.depth > 30 || lg.fn.Parent() == nil {
+		return ""
+	}
+	v := throughCell(p.v)
+	if v == p.v {
+		return ""
+	}
+	var owner *ssa.Function
+	switch x := v.(type) {
+	case ssa.Instruction:
+		owner = x.Parent()
+	case *ssa.Parameter:
+		owner = x.Parent()
+	}
+	if owner == nil || owner != lg.fn.Parent() {
+		return ""
+	}
+	mc := closureSite(lg.fn)
+	if mc == nil {
+		return ""
+	}
+	l2 := newLedger(lg.w, owner)
+	q := p
+	q.v = v
+	if ok, why := l2.prove(q, mc.Block()); ok {
+		return "established by " + ssaName(owner) + " before the function literal is made (" + why + ")"
+	}
+	return ""
 }
 
 // byGlobalInit: the subject is read from a package variable that is written exactly once, by its
@@ -1238,6 +1315,25 @@ func (lg *ledger) byConstruction(p pred, at *ssa.BasicBlock, ctx *proofCtx) stri
 			}
 		}
 	case pTypeKindIn:
+		// the last parameter of a variadic function is a slice: T.In(T.NumIn()-1) under T.IsVariadic()
+		if recv, args, ok := reflectTypeInvoke(v, "In"); ok && len(args) == 1 && p.kinds&(1<<kSlice) != 0 {
+			ib, io := lg.term(args[0])
+			if ib == "Type.NumIn("+lg.key(recv)+")" && io == -1 {
+				for _, f := range dominatingFacts(at) {
+					cond, truth := f.cond, f.truth
+					for {
+						u, ok := cond.(*ssa.UnOp)
+						if !ok || u.Op != token.NOT {
+							break
+						}
+						cond, truth = u.X, !truth
+					}
+					if r2, _, ok := reflectTypeInvoke(cond, "IsVariadic"); ok && truth && lg.key(r2) == lg.key(recv) {
+						return "the last parameter of a variadic function (IsVariadic() is true here) is a slice type"
+					}
+				}
+			}
+		}
 		// Type(v).Kind() == Kind(v)
 		if recv, _, ok := reflectValueCall(v, "Type"); ok {
 			if ok1, why := lg.proveIn(pred{kind: pKindIn, v: recv, kinds: p.kinds}, at, ctx); ok1 {
@@ -1259,6 +1355,17 @@ func (lg *ledger) byConstruction(p pred, at *ssa.BasicBlock, ctx *proofCtx) stri
 						}
 					}
 				}
+			}
+		}
+	case pDynType:
+		// x.(I) where I is the static interface type of x already: fails only for a nil interface
+		if p.typ != nil && types.IsInterface(p.typ) && types.Identical(p.typ, v.Type()) {
+			k := pIfaceNonNil
+			if namedIs(p.typ, "reflect", "Type") {
+				k = pTypeNonNil
+			}
+			if ok1, why := lg.proveIn(pred{kind: k, v: v}, at, ctx); ok1 {
+				return "asserting the value's own interface type only requires it to be non-nil (" + why + ")"
 			}
 		}
 	case pNotNilValue:
@@ -1587,7 +1694,7 @@ func (lg *ledger) boundFacts(b *ssa.BasicBlock) (out []diffC) {
 	}
 	var eqFalse [][2]ssa.Value
 	neg := map[token.Token]token.Token{token.LSS: token.GEQ, token.LEQ: token.GTR, token.GTR: token.LEQ, token.GEQ: token.LSS, token.NEQ: token.EQL}
-	for _, f := range dominatingFacts(b) {
+	for _, f := range lg.domFacts(b) {
 		cond, truth := f.cond, f.truth
 		for {
 			u, ok := cond.(*ssa.UnOp)
@@ -1621,9 +1728,23 @@ func (lg *ledger) boundFacts(b *ssa.BasicBlock) (out []diffC) {
 		}
 		add(bo.X, op, bo.Y)
 	}
+	// T.IsVariadic() known true: a variadic function has at least one parameter
+	for _, f := range lg.domFacts(b) {
+		cond, truth := f.cond, f.truth
+		for {
+			u, ok := cond.(*ssa.UnOp)
+			if !ok || u.Op != token.NOT {
+				break
+			}
+			cond, truth = u.X, !truth
+		}
+		if recv, _, ok := reflectTypeInvoke(cond, "IsVariadic"); ok && truth {
+			out = append(out, diffC{"0", "Type.NumIn(" + lg.key(recv) + ")", -1})
+		}
+	}
 	// results of a validating helper: `i, err := check(x, ...)` with err known to be nil here
 	// (or `i, ok := ...` with ok known true): what the helper guarantees about i on its successful returns
-	for _, f := range dominatingFacts(b) {
+	for _, f := range lg.domFacts(b) {
 		cond, truth := f.cond, f.truth
 		for {
 			u, ok := cond.(*ssa.UnOp)
@@ -1671,6 +1792,52 @@ func (lg *ledger) boundFacts(b *ssa.BasicBlock) (out []diffC) {
 			}
 		}
 	}()
+	// an int parameter that every call site (static, or a call of the function literal's value in
+	// the enclosing function) feeds with a value known to be >= 0 there
+	if lg.depth < 2 {
+		for i, prm := range lg.fn.Params {
+			if !isIntType(prm.Type()) {
+				continue
+			}
+			var sites []ssa.CallInstruction
+			sites = append(sites, lg.w.staticCallSites(lg.fn)...)
+			if len(sites) == 0 && lg.fn.Parent() != nil {
+				for _, bb := range lg.fn.Parent().Blocks {
+					for _, ins := range bb.Instrs {
+						c, ok := ins.(*ssa.Call)
+						if !ok || c.Call.IsInvoke() || c.Call.StaticCallee() != nil {
+							continue
+						}
+						for _, g := range possibleCallees(c.Call.Value, 0) {
+							if g == lg.fn {
+								sites = append(sites, c)
+							}
+						}
+					}
+				}
+			}
+			if len(sites) == 0 {
+				continue
+			}
+			all := true
+			for _, st := range sites {
+				if i >= len(st.Common().Args) {
+					all = false
+					break
+				}
+				l2 := newLedger(lg.w, st.Parent())
+				l2.depth = lg.depth + 1
+				ab, ao := l2.term(st.Common().Args[i])
+				if !entails(l2.subFacts(l2.boundFacts(st.Block())), "0", ab, ao) {
+					all = false
+					break
+				}
+			}
+			if all {
+				out = append(out, diffC{"0", lg.key(prm), 0})
+			}
+		}
+	}
 	// structural facts
 	for phi, lb := range lg.nonNegPhis() {
 		out = append(out, diffC{"0", lg.key(phi), -lb}) // phi >= lb
@@ -1879,12 +2046,37 @@ func (lg *ledger) subFacts(cs []diffC) []diffC {
 	return out
 }
 
+// domFacts: the branch facts that dominate b, plus those assumed for the proof in progress (one incoming edge).
+func (lg *ledger) domFacts(b *ssa.BasicBlock) []edgeFact {
+	fs := dominatingFacts(b)
+	if len(lg.extra) > 0 {
+		fs = append(append([]edgeFact(nil), fs...), lg.extra...)
+	}
+	return fs
+}
+
 // inBounds: 0 <= i < lenTerm at block b.
 func (lg *ledger) inBounds(i ssa.Value, lenKey string, b *ssa.BasicBlock) (bool, string) {
 	cs := lg.subFacts(lg.boundFacts(b))
 	ib, io := lg.term(i)
 	lower := entails(cs, "0", ib, io)       // 0 - ib <= io   i.e. ib + io >= 0
 	upper := entails(cs, ib, lenKey, -io-1) // ib - len <= -io-1  i.e. ib+io <= len-1
+	if !(lower && upper) && len(b.Preds) > 1 && len(lg.extra) == 0 {
+		// no single fact covers every way into the block: each incoming edge on its own
+		all := true
+		for _, pr := range b.Preds {
+			lg.extra = edgeFacts(pr, b)
+			cs2 := lg.subFacts(lg.boundFacts(pr))
+			lg.extra = nil
+			if !(entails(cs2, "0", ib, io) && entails(cs2, ib, lenKey, -io-1)) {
+				all = false
+				break
+			}
+		}
+		if all {
+			return true, "0 <= index < length on every incoming edge"
+		}
+	}
 	switch {
 	case lower && upper:
 		return true, "0 <= index < length by the dominating comparisons"
@@ -2143,6 +2335,34 @@ func allFuncsOf(w *World, sp *ssa.Package) []*ssa.Function {
 // cellValue: ld loads a local variable that is written exactly once (it lives in a cell because a
 // closure captures it) and that write comes before the load on every path: the value written.
 func cellValue(ld *ssa.UnOp) ssa.Value {
+	if fv, isFV := ld.X.(*ssa.FreeVar); isFV && ld.Op == token.MUL {
+		// inside the closure: the captured variable, if the enclosing function writes it exactly once,
+		// before the closure is made
+		mc, al := closureBinding(fv)
+		if mc == nil || al == nil || !singleStoreCell(al) {
+			return nil
+		}
+		for _, ref := range *al.Referrers() {
+			st, ok := ref.(*ssa.Store)
+			if !ok || st.Addr != ssa.Value(al) {
+				continue
+			}
+			if st.Block() == mc.Block() {
+				for _, ins := range st.Block().Instrs {
+					if ins == ssa.Instruction(st) {
+						return st.Val
+					}
+					if ins == ssa.Instruction(mc) {
+						return nil
+					}
+				}
+			}
+			if st.Block().Dominates(mc.Block()) {
+				return st.Val
+			}
+		}
+		return nil
+	}
 	al, ok := ld.X.(*ssa.Alloc)
 	if !ok || ld.Op != token.MUL || !singleStoreCell(al) {
 		return nil
@@ -2165,6 +2385,83 @@ func cellValue(ld *ssa.UnOp) ssa.Value {
 		if st.Block().Dominates(ld.Block()) {
 			return st.Val
 		}
+	}
+	return nil
+}
+
+// closureBinding: the one place where the closure owning fv is made, and the cell bound to fv there.
+func closureBinding(fv *ssa.FreeVar) (*ssa.MakeClosure, *ssa.Alloc) {
+	fn := fv.Parent()
+	if fn == nil || fn.Parent() == nil {
+		return nil, nil
+	}
+	idx := -1
+	for i, v := range fn.FreeVars {
+		if v == fv {
+			idx = i
+		}
+	}
+	var site *ssa.MakeClosure
+	for _, b := range fn.Parent().Blocks {
+		for _, ins := range b.Instrs {
+			if mc, ok := ins.(*ssa.MakeClosure); ok && mc.Fn == ssa.Value(fn) {
+				if site != nil {
+					return nil, nil
+				}
+				site = mc
+			}
+		}
+	}
+	if site == nil || idx < 0 || idx >= len(site.Bindings) {
+		return nil, nil
+	}
+	al, _ := site.Bindings[idx].(*ssa.Alloc)
+	return site, al
+}
+
+// closureSite: where the function literal fn is turned into a value (exactly one place), or nil.
+func closureSite(fn *ssa.Function) *ssa.MakeClosure {
+	if fn == nil || fn.Parent() == nil {
+		return nil
+	}
+	var site *ssa.MakeClosure
+	for _, b := range fn.Parent().Blocks {
+		for _, ins := range b.Instrs {
+			if mc, ok := ins.(*ssa.MakeClosure); ok && mc.Fn == ssa.Value(fn) {
+				if site != nil {
+					return nil
+				}
+				site = mc
+			}
+		}
+	}
+	return site
+}
+
+// possibleCallees: the functions a call of the function value v may run, when v is (a phi / a
+// write-once variable of) closures made in this function; nil when that is not known.
+func possibleCallees(v ssa.Value, depth int) []*ssa.Function {
+	if depth > 4 {
+		return nil
+	}
+	v = throughCell(v)
+	switch x := v.(type) {
+	case *ssa.MakeClosure:
+		if f, ok := x.Fn.(*ssa.Function); ok {
+			return []*ssa.Function{f}
+		}
+	case *ssa.Function:
+		return []*ssa.Function{x}
+	case *ssa.Phi:
+		var out []*ssa.Function
+		for _, e := range x.Edges {
+			fs := possibleCallees(e, depth+1)
+			if fs == nil {
+				return nil
+			}
+			out = append(out, fs...)
+		}
+		return out
 	}
 	return nil
 }
